@@ -1,5 +1,6 @@
 //@inject src/vdaf/prio3.rs
 //@tolerate __rust_dealloc
+//@oracle prio3_oracle.rs verif_oracle_prio3::oracle_helper_shares_independent src/vdaf/prio3.rs
 //@harness p3_shard_seeds_2_nojr | bounded(2 aggregators, no joint randomness, empty measurement vector) | shard_with_random on the real generic code: every helper share is Helper{seed[, blind]} copied VERBATIM from the sharding randomness in consumption order (a function of `random` only, for every measurement); leader blind verbatim; public share has one part per aggregator iff joint randomness
 //@harness p3_shard_seeds_3_nojr | bounded(3 aggregators, no joint randomness, empty measurement vector) | same contract (the "third helper")
 //@harness p3_shard_seeds_2_jr | bounded(2 aggregators, joint randomness, empty measurement vector) | same contract, blinds interleaved with seeds
